@@ -32,7 +32,19 @@ def sh(cmd, cwd=None, timeout=None, env=None, input=None):
 def translate():
     out = os.path.join(LEAN, 'Decaf', 'Generated', 'Constants.lean')
     rc, log = sh([sys.executable, os.path.join(VERIF, 'translator', 'extract_constants.py'), REPO, out])
-    return rc == 0, log.strip()
+    if rc != 0:
+        return False, log.strip()
+    # the straight-line group formulas (needs the constants index written just above)
+    fout = os.path.join(LEAN, 'Decaf', 'Generated', 'Formulas.lean')
+    rc2, log2 = sh([sys.executable, os.path.join(VERIF, 'translator', 'extract_formulas.py'), REPO, fout])
+    return rc2 == 0, (log.strip() + '; ' + log2.strip())
+
+
+def formula_status():
+    try:
+        return json.load(open(os.path.join(LEAN, 'Decaf', 'Generated', 'Formulas.index.json')))
+    except (OSError, ValueError):
+        return {}
 
 
 def lake_build(targets):
@@ -446,6 +458,8 @@ def main():
             trusted_base=P.get('trusted_base', []) + [
                 'Lean 4.33 kernel; Mathlib as checked by it; axioms allowed: propext, Classical.choice, Quot.sound',
                 'translator/extract_constants.py (literal extraction)',
+                'translator/extract_formulas.py (Rust statement/expression subset -> Lean; the field-API primitives it maps '
+                '(+ - * square abs is_negative, from_bytes_checked/deserialize_compressed, sqrt_ratio_zeta as the parameter sr) are taken by contract)',
                 'correspondence harness + driver (differential testing of the model against the crate)'],
             theorems=thm_names[:400],
             axioms_used=sorted({a for axs in axioms.values() for a in axs}),
@@ -460,6 +474,8 @@ def main():
             programs=len(cases),
             samples=samples if samples else [dict(obligation=t) for t in thm_names[:5]] or extra_lines[:5],
             explanation=P.get('explanation', ''),
+            translated_functions={k: (v.get('status') + (' lines %d-%d of %s' % (v['lines'][0], v['lines'][1], v['file']) if v.get('lines') else ' (%s): tie for this function is the correspondence check only' % v.get('reason', '?')))
+                                  for k, v in formula_status().items() if k in P.get('formulas', [])} or None,
             constants_checked=len([l for l in extra_lines if l.startswith('ok')]) if extra_lines else None,
         ),
         assumptions=P.get('assumptions', []),
